@@ -37,6 +37,11 @@ pub enum Attack {
     /// field-wise splices of two valid proofs
     Splice,
     Degenerate,
+    /// the two opening commitments shifted as a cancelling pair computed from
+    /// a folding challenge `u` learnt before the pair is absorbed (a verifier
+    /// deriving `u` too early would accept); on an honest proof or on a
+    /// forced proof of a violating assignment
+    LateBoundOpenings { early: u8, shift: Fe, edits: Option<Vec<(u16, Fe)>> },
 }
 
 #[derive(Debug, Clone, Serialize, Deserialize)]
@@ -62,6 +67,8 @@ fn case_strategy(_t: Tier) -> BoxedStrategy<Case> {
         2 => (0u8..15, fe_random()).prop_map(|(eval, by)| Attack::RefShift { eval, by }),
         2 => Just(Attack::Splice),
         1 => Just(Attack::Degenerate),
+        2 => (0u8..2, prop_oneof![Just(Fe(F::one())), fe_random()], proptest::option::of(edits()))
+            .prop_map(|(early, shift, edits)| Attack::LateBoundOpenings { early, shift, edits }),
     ];
     (prog::ops_strategy(10, 2, 0), attack, any::<u64>())
         .prop_map(|(ops, attack, seed)| Case { ops, attack, seed })
@@ -258,6 +265,38 @@ fn check(ctx: &Ctx, c: &Case) -> PResult {
                 c03::compare(ctx, "splice: all but one field from another valid proof", &verifier, &rv, &s, &pi, v3, Some(false))?;
             }
         }
+        Attack::LateBoundOpenings { early, shift, edits } => {
+            if shift.0 == F::zero() {
+                return Ok(());
+            }
+            let x_g = refprover::srs_for(cap, &pp, 2).powers[1];
+            let mut inst = (*program).clone();
+            let mut forced = false;
+            if let Some(ed) = edits {
+                let (ov, w) = assignment(ed);
+                if unsat_of(&w) {
+                    inst.overrides = ov;
+                    forced = true;
+                }
+            }
+            let inst = Arc::new(inst);
+            for v in [PlonkVersion::V3, PlonkVersion::V2] {
+                dusk_plonk::verif::set_force(forced);
+                let r = no_panic("forced-prove-panic", || sys::prove_version(&prover, &inst, c.seed, v));
+                dusk_plonk::verif::set_force(false);
+                let Ok((proof, pi)) = r? else {
+                    ctx.eval("late-bound openings: no base proof produced");
+                    continue;
+                };
+                let rp = crate::refver::RefProof::parse(&proof.to_bytes()).map_err(|e| Fail::new("refver-parse", e))?;
+                let Some(forged) = crate::refver::late_bound_opening_pair(&rv, &rp, &pi, crate::refver::version_of(v), *early, &x_g, &shift.0) else { continue };
+                c03::compare(
+                    ctx,
+                    &format!("opening pair shifted with an early folding challenge ({} base proof)", if forced { "forced, violating" } else { "honest" }),
+                    &verifier, &rv, &forged.to_bytes(), &pi, v, Some(false),
+                )?;
+            }
+        }
         Attack::Degenerate => {
             let (p1, pi) = sys::prove(&prover, &program, c.seed).map_err(|e| Fail::new("prove-error", format!("{e:?}")))?;
             let honest = p1.to_bytes().to_vec();
@@ -296,6 +335,6 @@ pub fn props() -> Vec<(Box<dyn PropDyn>, u32, u32)> {
 }
 
 pub fn describe(ctx: &Ctx) {
-    ctx.rule("adversarial proofs for generated circuits: (1) the real proving algorithm forced past its unsatisfied-circuit check (remainder dropped) on assignments the reference evaluator classifies as violating (witness overrides; one broken component of a raw row of each custom gate family), offered under V3/V2/V1 and with altered public inputs; (2) an independent malicious prover (harness/src/refprover.rs) with deviations {remainder dropped; arbitrary grand product and/or quotient with one of the 15 evaluations solved after the challenge so that the linearisation identity holds - the generalised unbound-evaluation attack; one evaluation shifted}; (3) all 52 single-field and all-but-one-field splices of two valid proofs; (4) degenerate proofs. Oracle: verify returns Err for every version without panicking and the reference verifier rejects too. non-trivial = the adversarial proof decodes and reaches the equation; distinct by hash of (proof bytes, label, version, public inputs)");
+    ctx.rule("adversarial proofs for generated circuits: (1) the real proving algorithm forced past its unsatisfied-circuit check (remainder dropped) on assignments the reference evaluator classifies as violating (witness overrides; one broken component of a raw row of each custom gate family), offered under V3/V2/V1 and with altered public inputs; (2) an independent malicious prover (harness/src/refprover.rs) with deviations {remainder dropped; arbitrary grand product and/or quotient with one of the 15 evaluations solved after the challenge so that the linearisation identity holds - the generalised unbound-evaluation attack; one evaluation shifted}; (3) all 52 single-field and all-but-one-field splices of two valid proofs; (4) degenerate proofs; (5) the two opening commitments of an honest or forced proof shifted as a cancelling pair computed from a folding challenge u learnt before the pair is absorbed (u is the one challenge the prover never computes, so only this attack distinguishes a verifier that derives it too early). Oracle: verify returns Err for every version without panicking and the reference verifier rejects too. non-trivial = the adversarial proof decodes and reaches the equation; distinct by hash of (proof bytes, label, version, public inputs)");
     ctx.assume("soundness against ALL prover strategies is not decided by exploration; only the listed strategies are covered (DESIGN.md section 8)");
 }
